@@ -46,6 +46,9 @@ def gen_case(rng, k, tier):
         if word == 1 and pat == 3:
             pat = 4
         ops.append("r:%d:%d:%d:%d:%d" % (word, sg, be, ln, pat))
+    if rng.chance(1, 3):
+        # at the end of the stream too: drain, then bad word sizes and a valid read
+        ops += ["f:100000"] * 70 + ["r:0:1:0:64:0", "r:-1:0:1:64:0", "r:2:1:0:64:0"]
     if nlinks == 2 and lens[1] > 0 and rng.chance(2, 3):
         # start inside the second link, so that the reads below are packed there
         ops.insert(0, "s:%d" % (lens[0] + rng.below(max(1, lens[1] // 2))))
